@@ -223,6 +223,12 @@ func ruleC13parts(p *Prog, r *Res, ruleB string, partA, partB bool) {
 					})
 					r.Check(added, ruleA, key+" [service hold]", p.Pos(call), "the locked slice is added to Manager.indexes in the same function",
 						"lock() result is discarded but the locked slice is not what this function adds to Manager.indexes: the use-count can never be released")
+					// a hold on the WHOLE list is taken once: inside a loop that adds readers one at a time it would count the
+					// readers added earlier again on every iteration, and those extra holds are never given back
+					if isFieldOf(info, arg, indexesFld) {
+						again := fl.Reach([]Pt{After(pt)}, func(nd ast.Node) bool { return nd == node }, nil)
+						r.Check(!again.Found, ruleA, key+" [service hold] taken once", p.Pos(call), "not on a cycle of the control-flow graph", "the service hold on the whole of Manager.indexes can be taken again ("+fl.traceString(again)+"): every reader already in the list gets one more hold per repetition, which no release pairs with — the files stay open and on disk after they were merged away")
+					}
 				case *ast.ReturnStmt:
 					// wrapper: getIndexesCopy returns lock's result
 					r.Check(f.Key() == "manager.Manager.getIndexesCopy", ruleA, key+" [wrapper]", p.Pos(call), "acquisition wrapper returns the releaser to its caller", "unexpected function returns a releaser; classify it as a wrapper in the checker after reading it")
